@@ -548,8 +548,33 @@ func Store(a, i, v *Term) *Term {
 	return App("store", a.Sort, a, i, v)
 }
 
+// ConstArray: the array holding v everywhere. cvc5 accepts `(as const ...)` only for syntactic values, so for a default that
+// is a constant of an uninterpreted sort (uuid_nil) a named array constant with a defining axiom is used instead.
+var namedConstArrays = map[string][2]*Term{}
+
 func ConstArray(sort string, v *Term) *Term {
+	if len(v.Args) == 0 && v.Sort == "UUID" {
+		name := "constarr_" + strings.NewReplacer("(", "", ")", "", " ", "_").Replace(sort) + "_" + v.Op
+		c := Const(name, sort)
+		namedConstArrays[name] = [2]*Term{c, v}
+		return c
+	}
 	return App("const-array", sort, v)
+}
+
+func constArrayAxioms() []*Term {
+	var names []string
+	for n := range namedConstArrays {
+		names = append(names, n)
+	}
+	sort.Strings(names)
+	var out []*Term
+	for _, n := range names {
+		cv := namedConstArrays[n]
+		i := BoundVar("q_ca", "Int")
+		out = append(out, Forall([]*Term{i}, [][]*Term{{Select(cv[0], i)}}, Eq(Select(cv[0], i), cv[1])))
+	}
+	return out
 }
 
 // datatypes ------------------------------------------------------------------
